@@ -164,8 +164,8 @@ var propSpecs = map[string]*PropSpec{
 	},
 	"C16": {
 		ID: "C16", Exclude: txLabels, Title: "--json output is a single value and tells the truth",
-		Funcs:     cat(lockFuncs, sectionFuncs, outerFuncs, commandFuncs, helperFuncs, readyFuncs, replayFuncs),
+		Funcs:     cat(lockFuncs, sectionFuncs, outerFuncs, commandFuncs, []string{"RunList", "RunWhere", "buildTaskListItems", "buildTaskShowOutput", "sortByCreatedAt$1", "sortByCreatedAt", "collectNonEpicTasks", "filterActiveTasks", "filterReadyTasks", "computeStatsForTasks"}, helperFuncs, readyFuncs, replayFuncs),
 		Technique: "contract-based deductive verification: ghost output counters (stdoutJSON, stdoutText) bumped by the trusted contracts of writeJSON and fmt.Print*; per command: success with --json writes exactly one JSON value and no text, failure at most one; create's reply equals the appended event",
-		Assume:    append([]string{"cmd/ergo wiring (cobra, exitErr, quickstart/version) is outside the package under contract", "list is under contract in C12"}, lockAssume...),
+		Assume:    append([]string{"cmd/ergo wiring (cobra, exitErr, quickstart/version) is outside the package under contract", "list and where are part of this check (one JSON value, flags equal to the proved predicates)"}, lockAssume...),
 	},
 }
